@@ -13,9 +13,6 @@ would raise.
 Reading guide (`Model/PoolSpec.lean`):
 * `usage s`        = Σ_blocks (|conns| + pending_conns) + #disconnects in flight that are
                      not part of a transfer;
-* `s.phantom`      = number of `_transfer` tasks whose disconnect failed (their
-                     `pending_conns` increment is never undone — finding
-                     `transfer-disconnect-failure`); without that fault it is 0;
 * `discByHolder s` = connections handed back with `release(discard=True)` whose
                      `_discard_conn` has not finished: the property's "counts as closed".
 -/
@@ -36,20 +33,16 @@ theorem inv_run (max : Nat) (evs : List (Env × Ev)) : InvNum (run (init max) ev
   run_inv evs _ (init_inv max)
 
 /-- Reported usage is the true usage: `current_capacity` equals what the blocks
-    and the disconnects in flight add up to (up to the phantom `pending_conns`
-    of failed transfers). -/
+    and the disconnects in flight add up to.  (Before the repair 6ff8693 of `_transfer`
+    this only held up to a `phantom` term, see notes/C16.md.) -/
 theorem usage_exact (max : Nat) (evs : List (Env × Ev)) :
-    (run (init max) evs).cur + (run (init max) evs).phantom = usage (run (init max) evs) :=
+    (run (init max) evs).cur = usage (run (init max) evs) :=
   (inv_run max evs).acc
 
 /-- Never above the maximum, not counting connections their holder handed back as broken. -/
 theorem capacity (max : Nat) (evs : List (Env × Ev)) :
     (run (init max) evs).cur ≤ (run (init max) evs).max + discByHolder (run (init max) evs) :=
   (inv_run max evs).cap
-
-/-- `max_capacity` is never modified. -/
-theorem max_const (s : State) (env : Env) (e : Ev) (h : InvNum s) :
-    InvNum (step s env e) ∧ True := ⟨step_inv h env e, trivial⟩
 
 /-! ### Non-vacuity: a concrete run that exercises transfer, discard and failure -/
 
